@@ -183,10 +183,14 @@ type txCase struct {
 	spam   bool
 	hist   bool
 	quota  bool // quota checking on, with a limit that full@example.com (recipient "FULL") has used up
+	blobFault bool // the shared blob table refuses every new row during the transaction (trigger): fall back or refuse
 }
 
 func (t txCase) line() string {
 	l := fmt.Sprintf("tx %d %d %v %v %s", t.shape, t.folder, t.spam, t.hist, strings.Join(t.rcpts, ","))
+	if t.blobFault {
+		l += " blobfault"
+	}
 	if t.quota {
 		l += " quota"
 	}
@@ -195,11 +199,14 @@ func (t txCase) line() string {
 
 func parseTx(l string) (txCase, bool) {
 	f := strings.Fields(l)
-	if (len(f) != 6 && len(f) != 7) || f[0] != "tx" {
+	if len(f) < 6 || len(f) > 8 || f[0] != "tx" {
 		return txCase{}, false
 	}
 	var t txCase
-	t.quota = len(f) == 7 && f[6] == "quota"
+	for _, x := range f[6:] {
+		t.quota = t.quota || x == "quota"
+		t.blobFault = t.blobFault || x == "blobfault"
+	}
 	fmt.Sscan(f[1], &t.shape)
 	fmt.Sscan(f[2], &t.folder)
 	t.spam = f[3] == "true"
@@ -279,7 +286,15 @@ func (e *env) play(t txCase) {
 		cfg.Delivery.QuotaLimit = quotaLimit
 		e.rep.Hit("quota:on")
 	}
+	if t.blobFault {
+		if _, err := e.w.Mgr.GetSharedDB().Exec("CREATE TRIGGER IF NOT EXISTS verif_refuse_blobs BEFORE INSERT ON blobs BEGIN SELECT RAISE(ABORT, 'injected: blob row refused'); END"); err == nil {
+			e.rep.Hit("blob-table:refusing")
+		}
+	}
 	rcptReplies, dataReplies := deliverCfg(e.w, &cfg, "sender@example.org", rcpts, raw)
+	if t.blobFault {
+		e.w.Mgr.GetSharedDB().Exec("DROP TRIGGER IF EXISTS verif_refuse_blobs")
+	}
 	for i, r := range rcptReplies {
 		if !strings.HasPrefix(r, "250") {
 			e.rep.Violate("broken-correspondence", "RCPT", fmt.Sprintf("%s: RCPT %s answered %q", t.line(), rcpts[i], r), replay)
@@ -485,24 +500,29 @@ func main() {
 		nshape := len(shapes(e.rng, "x"))
 		// every shape once to one existing user, once to a mixed list
 		for s := 0; s < nshape; s++ {
-			txs = append(txs, txCase{s, []string{"u1@example.com"}, 0, false, false, false})
-			txs = append(txs, txCase{s, []string{"u2@example.com", "NEW", "team@example.com", "u2@example.com"}, 0, false, true, false})
+			txs = append(txs, txCase{s, []string{"u1@example.com"}, 0, false, false, false, false})
+			txs = append(txs, txCase{s, []string{"u2@example.com", "NEW", "team@example.com", "u2@example.com"}, 0, false, true, false, false})
 		}
 		// both role mailboxes in one transaction and in consecutive ones, into a folder neither has yet, and as spam
-		txs = append(txs, txCase{0, []string{"team@example.com", "desk@example.com"}, 2, false, false, false})
-		txs = append(txs, txCase{1, []string{"desk@example.com", "team@example.com", "u1@example.com"}, 2, false, false, false})
-		txs = append(txs, txCase{0, []string{"team@example.com", "desk@example.com"}, 1, false, false, false})
-		txs = append(txs, txCase{0, []string{"desk@example.com"}, 1, true, false, false})
+		txs = append(txs, txCase{0, []string{"team@example.com", "desk@example.com"}, 2, false, false, false, false})
+		txs = append(txs, txCase{1, []string{"desk@example.com", "team@example.com", "u1@example.com"}, 2, false, false, false, false})
+		txs = append(txs, txCase{0, []string{"team@example.com", "desk@example.com"}, 1, false, false, false, false})
+		txs = append(txs, txCase{0, []string{"desk@example.com"}, 1, true, false, false, false})
+		// the shared blob table refuses new rows while messages with out-of-line parts are delivered (every shape, so that the
+		// large and the attachment-bearing ones are among them): accepted ⇒ retrievable, or refused
+		for sidx := 0; sidx < nshape; sidx++ {
+			txs = append(txs, txCase{shape: sidx, rcpts: []string{"u1@example.com", "NEW"}, blobFault: true})
+		}
 		// the delivery folder of an existing user is renamed away between two deliveries to it
-		txs = append(txs, txCase{0, []string{"u3@example.com"}, 1, false, false, false})
-		txs = append(txs, txCase{-1, []string{"u3@example.com"}, 1, false, false, false})
-		txs = append(txs, txCase{0, []string{"u3@example.com"}, 1, false, false, false})
-		txs = append(txs, txCase{0, []string{"u3@example.com"}, 0, true, false, false})
-		txs = append(txs, txCase{-2, []string{"u3@example.com"}, 0, true, false, false})
-		txs = append(txs, txCase{0, []string{"u3@example.com"}, 0, true, false, false})
+		txs = append(txs, txCase{0, []string{"u3@example.com"}, 1, false, false, false, false})
+		txs = append(txs, txCase{-1, []string{"u3@example.com"}, 1, false, false, false, false})
+		txs = append(txs, txCase{0, []string{"u3@example.com"}, 1, false, false, false, false})
+		txs = append(txs, txCase{0, []string{"u3@example.com"}, 0, true, false, false, false})
+		txs = append(txs, txCase{-2, []string{"u3@example.com"}, 0, true, false, false, false})
+		txs = append(txs, txCase{0, []string{"u3@example.com"}, 0, true, false, false, false})
 		// quota on: the over-quota recipient first, in the middle, last, twice, alone; the others are new users and the role
 		for _, rc := range [][]string{{"FULL", "NEW"}, {"NEW", "FULL", "NEW"}, {"NEW", "FULL"}, {"FULL", "team@example.com", "FULL", "NEW"}, {"FULL"}, {"FULL", "FULL", "NEW", "NEW"}} {
-			txs = append(txs, txCase{0, rc, 0, false, false, true})
+			txs = append(txs, txCase{0, rc, 0, false, false, true, false})
 		}
 		n := 60
 		if o.Thorough {
@@ -527,10 +547,10 @@ func main() {
 				for j := 0; j < 1+e.rng.Intn(4); j++ {
 					q = append(q, e.rng.Pick([]string{"FULL", "FULL", "NEW", "NEW", "team@example.com"}))
 				}
-				txs = append(txs, txCase{e.rng.Intn(nshape), q, e.rng.Intn(3), e.rng.Chance(15), false, true})
+				txs = append(txs, txCase{e.rng.Intn(nshape), q, e.rng.Intn(3), e.rng.Chance(15), false, true, false})
 				continue
 			}
-			txs = append(txs, txCase{e.rng.Intn(nshape), rc, e.rng.Intn(3), e.rng.Chance(15), e.rng.Chance(60), false})
+			txs = append(txs, txCase{e.rng.Intn(nshape), rc, e.rng.Intn(3), e.rng.Chance(15), e.rng.Chance(60), false, false})
 		}
 	}
 	for _, t := range txs {
